@@ -46,7 +46,7 @@ Definition presents_right_secret (p : pres) : bool :=
   | _ => false
   end.
 Definition presents_ok_assertion (p : pres) : bool :=
-  match p with PAssert AOk | PAssertNoType | PAssertWrongType | PXAssert _ => true | _ => false end.
+  match p with PAssert AOk | PAssertId AOk | PAssertNoType | PAssertWrongType | PXAssert _ => true | _ => false end.
 (* [presents_right_secret]: the exact secret of X next to the exact id of X; a white-space-only or
    near-miss secret is not it, nor is X's secret next to a near miss of X's id *)
 (* the request names X: a near miss of X's id names nobody *)
@@ -56,7 +56,8 @@ Definition identifies (p : pres) : bool := match p with PNone | PNearId _ _ => f
 Definition cred_valid (c : cfg) (rg : reg) (p : pres) (public_allowed : bool) : bool :=
   r_known rg &&
   match r_meth rg with
-  | MBasic => presents_right_secret p
+  | MBasic | MOther => presents_right_secret p   (* MOther: a method the library does not know, read as the default
+                                                     client_secret_basic - never less than the client's secret *)
   | MPost => presents_right_secret p && f_post c
   | MPKJWT => presents_ok_assertion p && r_key rg && f_pkjwt c
   | MNone => public_allowed && identifies p
